@@ -372,6 +372,11 @@ INT_POP(h_pop_strong_int, vbq_try_pop_strong, 2, 1, "pop_s", "vbq.pop.commit")
 INT_POP(h_pop_weak_int, vbq_try_pop_weak, 3, 0, "pop_w", "vbq.weak.no_wrong_success")
 #endif
 
+void h_dispatch(void) {
+  XV_OBL("vbq.pop_optional.dispatch", (XV_DISPATCH_POP) == 2 && (XV_DISPATCH_POP_STRONG) == 0 && (XV_DISPATCH_POP_WEAK) == 1);
+  XV_CANARY("dispatch.reached");
+}
+
 /* ---- SOLO: the weak (lock-free) operations return within 2 iterations from every mid-operation state, without interference */
 #ifdef XV_SOLO
 /* Assumption (stated in unit.py): fewer than 2^62 operations in the life of a queue.  The weak operations compare
